@@ -741,8 +741,10 @@ pub fn gen_case(g: &mut Gen, kind: Kind, o: &GenOpts) -> TCase {
         }
         Kind::Pso => {
             set("num_particles", (1 + g.below(12)) as f64);
-            set("start_weight", g.f64_in(0.0, 1.2));
-            set("end_weight", g.f64_in(0.0, 1.2));
+            // boundary weights (exactly 0, exactly 1, start == end) in a fifth of the cases
+            let sw = if g.chance(0.2) { *g.pick(&[0.0, 1.0]) } else { g.f64_in(0.0, 1.2) };
+            set("start_weight", sw);
+            set("end_weight", if g.chance(0.2) { *g.pick(&[0.0, 1.0, sw]) } else { g.f64_in(0.0, 1.2) });
             set("c_one", if g.chance(0.25) { 0.0 } else { g.f64_in(0.0, 3.0) });
             set("c_two", if g.chance(0.25) { 0.0 } else { g.f64_in(0.0, 3.0) });
             set("v_max", width * *g.pick(&[0.001, 0.01, 0.1, 1.0, 10.0]));
